@@ -64,6 +64,7 @@ structure WorldObj where
   udpSinceBase : Bool := false
   users : Nat := 0              -- registered users of the server configuration
   ids : Bool := false           -- the cipher's datagrams carry session and packet ids (2022)
+  started : Bool := true        -- the server's start-up succeeded
 
 inductive Obj where
   | ssu (o : SsuObj)
@@ -573,7 +574,11 @@ def step (st : St) (toks : List String) : St × String :=
           | some "-" => 0
           | some u => (u.splitOn ";").length
           | none => 0
-        ({ st with objs := st.objs.insert name (.world { protocol := proto, udp := udp, link := kv rest "link" == some "1" || kv rest "link" == some "chop", users := users, ids := cipher.startsWith "2022" }) }, "ok")
+        -- (a shadowsocks server whose key or user keys are not acceptable ends its start-up with an error: it never serves)
+        let up := proto != "shadowsocks" || (match kv rest "spw", kv rest "users" with
+          | some spw, some us => (Ss.ctxOfConfig C cipher spw (parseUsers us)).isSome
+          | _, _ => true)
+        ({ st with objs := st.objs.insert name (.world { protocol := proto, udp := udp, link := kv rest "link" == some "1" || kv rest "link" == some "chop", users := users, ids := cipher.startsWith "2022", serverUp := up, started := up }) }, "ok")
       else (st, "err")
     | _, _, _ => (st, "bad-op")
   | "e2e.tcp" :: name :: rest =>
@@ -645,7 +650,7 @@ def step (st : St) (toks : List String) : St × String :=
     | _ => (st, "bad-op")
   | ["e2e.alive", name] =>
     match st.objs.get? name with
-    | some (.world w) => (st, if w.listeners.serves then "alive" else "ended")
+    | some (.world w) => (st, if !w.started then "ended:[0]" else if w.listeners.serves then "alive" else "ended")
     | _ => (st, "bad-op")
   | ["e2e.stop", name] => ({ st with objs := st.objs.erase name }, "ok")
   | ["ss.rerace", _, _, n] => (st, s!"accepted=0 of={n}")
